@@ -191,7 +191,9 @@ def check(pid, tier, seed):
     nr = 300 if tier == "quick" else 6000
     secs = ["", "A", "B", "C c", "Dd"]
     keys = ["x", "y", "key3", "k4", "K-5", "k.6"]
-    vals = ["", "v", "a b", "v\n w", "v\n w\n\tx y", "12", "true", "a=b", "semi;colon", "hash#tag", " lead", "trail ", "\"q\"", "x:y", "tab\tin"]
+    vals = ["", "v", "a b", "v\n w", "v\n w\n\tx y", "12", "true", "a=b", "semi;colon", "hash#tag", " lead", "trail ", "\"q\"", "x:y", "tab\tin",
+            # texts the library itself uses as markers / words: ordinary values like any other
+            "_none_", "(null)", "NULL", "false", "[A]", "yes", "0"]
     for _ in range(nr):
         hist = []
         for _ in range(rnd.randint(1, 40)):
